@@ -42,23 +42,21 @@ package store
 //@ func (*Store).removeODS
 //@   property C07
 //@   requires s != nil
-//@   effect $CacheDropped := $CacheDropped || err == nil
-//@   effect $LinkGone := $LinkGone || err == nil
-//@   effect $Complete := false
+//@   havoc $CacheDropped $LinkGone $Complete
 //@   ensures err == nil ==> $CacheDropped && $LinkGone && !$Complete
+//@   ensures old($LinkGone) ==> $LinkGone
 
 //@ func (*Store).removeQ4
 //@   property C07
 //@   requires s != nil
-//@   effect $Complete := $Complete && datahash.IsEmptyEDS()
+//@   havoc $CacheDropped $Complete
 //@   ensures err == nil && !datahash.IsEmptyEDS() ==> !$Complete
 
 //@ func (*Store).removeODSQ4
 //@   property C07
 //@   requires s != nil
-//@   effect $Complete := false
-//@   effect $LinkGone := $LinkGone || err == nil
-//@   ensures err == nil ==> $LinkGone && !$Complete
+//@   havoc $CacheDropped $LinkGone $Complete
+//@   ensures err == nil ==> $LinkGone
 
 // The link is made only to complete files; ErrExist from the creation is followed by validation.
 //@ func (*Store).linkHeight
@@ -69,13 +67,13 @@ package store
 //@ func (*Store).validateAndRecoverODSQ4
 //@   property C07
 //@   requires s != nil
-//@   effect $Complete := err == nil
+//@   havoc $CacheDropped $LinkGone $Complete
 //@   ensures err == nil ==> $Complete
 
 //@ func (*Store).validateAndRecoverODS
 //@   property C07
 //@   requires s != nil
-//@   effect $Complete := err == nil
+//@   havoc $CacheDropped $LinkGone $Complete
 //@   ensures err == nil ==> $Complete
 
 //@ func (*Store).createODSQ4File
